@@ -81,6 +81,33 @@ Catalogue == {
   Case("block-type-3", << F(1, 1), F(3, 2), F(0, 5) >>, "reject", "block-type"),
   Case("stored-nlen", HeaderFields(1, 0) \o << F(0, 5), F(2, 16), F(65532, 16), F(7, 8), F(8, 8) >>, "reject", "len-nlen"),
   Case("hlit-287", HeaderFields(1, 2) \o << F(30, 5), F(1, 5), F(15, 4) >> \o [k \in 1..19 |-> F(DCl[ClOrder[k]], 3)], "reject", "too-many-symbols"),
+  \* block type history fixed, dynamic, fixed: the dynamic code (a = 0, b = 10, c = 110, end = 111) is such
+  \* that the last block's bits ('A' under the fixed code: 01110001, then the end of block) also read under it
+  \* (as 'a', end of block) - a reader that still holds the previous block's tables does not even notice
+  Case("fixed-dynamic-fixed",
+       FixedBlock(0, << Lit(97), Lit(98) >>)
+       \o DynBlockWith(0, 0, 1, 19, [s \in 0..18 |-> IF s \in {1, 2, 3, 18} THEN 2 ELSE 0],
+                       << <<18, 86>>, <<1, 0>>, <<2, 0>>, <<3, 0>>, <<18, 127>>, <<18, 7>>, <<3, 0>>, <<1, 0>>, <<1, 0>> >>,
+                       << Lit(97), Lit(98), Lit(99) >>,
+                       [s \in 0..256 |-> IF s = 97 THEN 1 ELSE IF s = 98 THEN 2 ELSE IF s \in {99, 256} THEN 3 ELSE 0], DDist)
+       \o FixedBlock(1, << Lit(65) >>), "accept", ""),
+  \* the largest header the two 5-bit counts can announce: 288 literal/length and 32 distance lengths, the
+  \* surplus ones zero (zlib refuses more than 286 / 30; a reader that takes it has 320 lengths to hold)
+  Case("hlit-288-hdist-32",
+       DynBlockWith(1, 31, 31, 19, DCl,
+                    << <<18, 54>>, <<1, 0>>, <<18, 127>>, <<18, 41>>, <<2, 0>>, <<2, 0>>, <<18, 19>>, <<1, 0>>, <<1, 0>>, <<18, 19>> >>,
+                    DToks, [s \in 0..287 |-> IF s = 65 THEN 1 ELSE IF s \in {256, 257} THEN 2 ELSE 0],
+                    [s \in 0..31 |-> IF s \in {0, 1} THEN 1 ELSE 0]),
+       "reject", "too-many-symbols"),
+  \* a repeat (16) right behind a zero run.  RFC 1951 / zlib repeat the zero (the literal code is then
+  \* incomplete: rejected); the library repeats the last explicit length, under which reading the code
+  \* is complete and the body below is well formed.  Whatever a reader makes of it, it must write it back.
+  Case("repeat-after-zero-run",
+       DynBlockWith(1, 0, 1, 19, [s \in 0..18 |-> IF s \in {1, 3, 16, 18} THEN 2 ELSE 0],
+                    << <<3, 0>>, <<18, 85>>, <<16, 3>>, <<18, 127>>, <<18, 4>>, <<3, 0>>, <<1, 0>>, <<1, 0>> >>,
+                    << Lit(0), Lit(97), Lit(100), Lit(102), Lit(0) >>,
+                    [s \in 0..256 |-> IF s = 0 \/ s \in 97..102 \/ s = 256 THEN 3 ELSE 0], DDist),
+       "reject", "lit-code"),
   \* 32 distance codes, two of them (30, 31) with a code although no distance uses them, and a reference whose
   \* code is longer than theirs: zlib refuses the header; a reader that takes it must write it back as it was
   Case("hdist-32-with-codes-30-31",
